@@ -1,6 +1,7 @@
 """Shared by the Exec-layer properties (C01 C02 C05 C06 C08 C09 C17):
 world/ops generator, Python source renderer, Coq emitter.
 A *world* is {"nspaces", "cells":[...], "refs":[...], "maxdepth"}; see gen_world."""
+import json
 import fw
 from fw import cz, cnat, clist, ctuple, cbool, copt
 
@@ -62,6 +63,12 @@ def render_cell(c, world):
     for i, s in enumerate(c["body"]):
         if s[0] == "assign":
             lines.append("    t%d = %s" % (i, render_expr(s[1], world, c)))
+        elif s[0] == "fin":
+            # (P)-only statement (not a constructor of Exec/Model.v): the clean-up expression runs while a failure
+            # of the protected expression passes through this formula
+            lines += ["    try:", "        t%d = %s" % (i, render_expr(s[1], world, c)),
+                      "    finally:",
+                      "        %s" % render_expr(s[2], world, c)]
         else:
             lines += ["    try:", "        t%d = %s" % (i, render_expr(s[1], world, c)),
                       "    except (ValueError, KeyError, ZeroDivisionError):",
@@ -112,7 +119,16 @@ def cexpr(e):
     raise ValueError(e)
 
 
+def has_fin(case):
+    """the case uses the (P)-only statement try/finally somewhere: it has no term of Exec/Model.v"""
+    bodies = [c["body"] for c in case["world"]["cells"]] + [c.get("far_body") or [] for c in case["world"]["cells"]] + \
+             [o[2]["body"] for o in case["ops"] if o[0] == "setf"]
+    return any(st[0] == "fin" for b in bodies for st in b)
+
+
 def cstmt(s):
+    if s[0] == "fin":
+        raise ValueError("try/finally is not a statement of Exec/Model.v")
     return "(SAssign %s)" % cexpr(s[1]) if s[0] == "assign" else "(STry %s %s)" % (cexpr(s[1]), cexpr(s[2]))
 
 
@@ -230,6 +246,8 @@ class Gen:
         self.recursion = kw.get("recursion", 0.3)
         self.try_calls = kw.get("try_calls", True)   # False: no calls inside try (was used to avoid the trigger of D20, repaired in /repo)
         self.p_derived = kw.get("p_derived", 0.0)    # cells realised as derived copies of a base space's cells
+        self.p_fin_world = kw.get("p_fin_world", 0.0)  # share of worlds whose formulas may use try/finally ((P)-only cases)
+        self.fin = False
 
     def val(self):
         return self.rng.randint(-3, 6)
@@ -290,7 +308,14 @@ class Gen:
             e = self.expr(w, me, r.randint(1, 3), i, callees)
             if rec and _has_back_call(e, me["cid"]):
                 e = ["ifpos", ["par", 0], e, ["const", self.val()]]
-            if r.random() < self.p_try:
+            if self.fin and r.random() < 0.3:
+                f = self.expr(w, me, r.randint(1, 2), i, later)
+                for _ in range(6):               # the clean-up should evaluate a cells
+                    if not later or '"call"' in json.dumps(f):
+                        break
+                    f = self.expr(w, me, 2, i, later)
+                body.append(["fin", e, f])
+            elif r.random() < self.p_try:
                 if not self.try_calls:
                     e = self.expr(w, me, r.randint(1, 3), i, [])
                 body.append(["try", e, self.expr(w, me, 1, i, later)])
@@ -304,6 +329,7 @@ class Gen:
 
     def world(self):
         r = self.rng
+        self.fin = self.p_fin_world > 0 and r.random() < self.p_fin_world
         nsp = r.randint(*self.nspaces)
         nc = r.randint(*self.ncells)
         w = {"nspaces": nsp, "cells": [], "refs": [], "maxdepth": r.randint(*self.maxdepth)}
